@@ -12,6 +12,7 @@ import (
 	"os/exec"
 	"sort"
 	"strings"
+	"sync"
 	"time"
 )
 
@@ -38,6 +39,70 @@ type Solver struct {
 	errors     int
 	unknowns   int
 	log        io.Writer
+	// cross-solver re-check of sampled unsat answers (DESIGN 5.5)
+	cross   []*Solver
+	isCross bool
+	nUnsat  int
+}
+
+// crossEvery > 0: every crossEvery-th fresh `unsat` answer of a worker's primary solver is re-decided by
+// z3 5.1.0 (z3-new) and cvc5 on the same conjunction; an answer `sat` from either turns the verdict into
+// unknown (inconclusive, DEGRADED) - an unsound unsat is the one solver error that could hide a violation.
+var crossEvery int
+var crossBins = []string{"z3-new", "cvc5"}
+
+var crossStats struct {
+	mu       sync.Mutex
+	checked  int
+	agree    map[string]int
+	unknown  map[string]int
+	disagree map[string]int
+	time     time.Duration
+}
+
+func (s *Solver) crossCheck(all []*Term) bool {
+	if s.cross == nil {
+		for _, b := range crossBins {
+			if _, err := exec.LookPath(b); err != nil {
+				continue
+			}
+			to := s.timeoutMs
+			if to > 20000 {
+				to = 20000
+			}
+			cs := newSolver(s.tt, b, to)
+			cs.isCross = true
+			s.cross = append(s.cross, cs)
+		}
+	}
+	ok := true
+	t0 := time.Now()
+	res := map[string]string{}
+	for _, cs := range s.cross {
+		r, _ := cs.CheckInc(nil, all, nil)
+		res[cs.bin] = r
+		if r == rSat {
+			ok = false
+		}
+	}
+	crossStats.mu.Lock()
+	if crossStats.agree == nil {
+		crossStats.agree, crossStats.unknown, crossStats.disagree = map[string]int{}, map[string]int{}, map[string]int{}
+	}
+	crossStats.checked++
+	crossStats.time += time.Since(t0)
+	for b, r := range res {
+		switch r {
+		case rUnsat:
+			crossStats.agree[b]++
+		case rSat:
+			crossStats.disagree[b]++
+		default:
+			crossStats.unknown[b]++
+		}
+	}
+	crossStats.mu.Unlock()
+	return ok
 }
 
 func newSolver(tt *TermTable, bin string, timeoutMs int) *Solver {
@@ -81,6 +146,10 @@ func (s *Solver) start() {
 }
 
 func (s *Solver) Close() {
+	for _, cs := range s.cross {
+		cs.Close()
+	}
+	s.cross = nil
 	if s.cmd != nil {
 		s.in.Close()
 		s.cmd.Process.Kill()
@@ -328,6 +397,7 @@ func (s *Solver) CheckInc(pc []*Term, extra []*Term, evalTerms []*Term) (string,
 			return r, nil
 		}
 	}
+	all := append(append([]*Term{}, live...), ex...)
 	var sb strings.Builder
 	// queries over wide bit-vectors are faster without a deep assertion stack: use a single frame
 	isWide := false
@@ -467,6 +537,13 @@ func (s *Solver) CheckInc(pc []*Term, extra []*Term, evalTerms []*Term) (string,
 	if bad {
 		// the solver state may be inconsistent after an error: start afresh
 		s.restart()
+	}
+	if res == rUnsat && !s.isCross && crossEvery > 0 {
+		s.nUnsat++
+		if s.nUnsat%crossEvery == 0 && !s.crossCheck(all) {
+			res = rUnknown
+			s.unknowns++
+		}
 	}
 	if evalTerms == nil {
 		s.cache[key] = res
